@@ -30,6 +30,7 @@ type PropertySpec struct {
 	Trusted    []string `json:"trusted_base"`
 	NoClosure  bool     `json:"no_closure,omitempty"`
 	Explanation string  `json:"explanation,omitempty"` // for level "other": what the run means
+	Partial    map[string]string `json:"partial,omitempty"` // function regexp -> obligation-name regexp: only these obligations of that function are claimed
 	SweepFiles []string `json:"sweep_files,omitempty"` // safety sweep: every function declared in these files (relative to /repo) gets a thin contract; only safe.* obligations are claimed
 }
 
@@ -184,7 +185,13 @@ func (e *Engine) generateFor(ps *PropertySpec) ([]*FuncGen, error) {
 		g.applySplits()
 		done[k] = g
 		order = append(order, k)
-		if !ps.NoClosure {
+		isPartial := false
+		for fr := range ps.Partial {
+			if m, _ := regexp.MatchString(fr, g.fname); m {
+				isPartial = true
+			}
+		}
+		if !ps.NoClosure && !isPartial {
 			var used []string
 			for u := range g.usedContracts {
 				used = append(used, u)
@@ -297,6 +304,7 @@ func cmdCheck(args []string) int {
 	assumptions := map[string]bool{}
 	abstracted := map[string]bool{}
 	boundsNote = map[string]bool{}
+	partialNote = map[string]bool{}
 	for _, g := range gens {
 		fr := &funcReport{Name: g.fname}
 		if g.fn != nil {
@@ -310,8 +318,18 @@ func cmdCheck(args []string) int {
 			fr.Unsupported = g.unsupported
 			continue
 		}
+		var keepRe *regexp.Regexp
+		for fr, orx := range ps.Partial {
+			if m, _ := regexp.MatchString(fr, g.fname); m {
+				keepRe = regexp.MustCompile(orx)
+				partialNote[g.fname+": only obligations matching "+orx+" are claimed"] = true
+			}
+		}
 		for _, o := range g.obls {
 			if len(onlyRes) > 0 && !matchAny(onlyRes, o.Name) {
+				continue
+			}
+			if keepRe != nil && !keepRe.MatchString(o.Name) {
 				continue
 			}
 			obls = append(obls, o)
@@ -643,7 +661,17 @@ func oblOK(r Result) bool {
 
 var sweepNote []string
 var boundsNote map[string]bool
+var partialNote map[string]bool
 var thoroughSelftest string
+
+func keysOf(m map[string]bool) []string {
+	out := []string{}
+	for k := range m {
+		out = append(out, k)
+	}
+	sort.Strings(out)
+	return out
+}
 
 func boundList() []string {
 	out := []string{}
@@ -762,6 +790,7 @@ func buildEvidence(id, tier string, seed int, ps *PropertySpec, reports []oblRep
 		"not_decided":              ps.NotDecided,
 		"sweep_not_shown_safe":     nonNil(sweepNote),
 		"bounded":                  boundList(),
+		"partially_claimed":        keysOf(partialNote),
 		"selftest":                 thoroughSelftest,
 		"violating_obligations":    nonNil(violations),
 		"evaluations":              len(reports),
